@@ -16,9 +16,10 @@ import AsynqModel.Core.Syntax
   instance of a SUBCLASS of tuple/list/dict, the result of an async_proxy function that returns a future / None / a container).  The same
   syntax is interpreted on the real library by harness/checks/c15.py.
 
-  The code as it is makes the two engines differ in the places below, all modelled as they are (Theorems/C15.lean section B;
-  two more: `Ys.gco` - a child whose explicit asyncio_fn is a generator-based coroutine is rejected by resolve_awaitables -,
-  `observeR true` - a `pure=True` METHOD has no `.asyncio` attribute: PureAsyncDecoratorBinder defines none):
+  The code as it is makes the two engines differ in three places, all modelled as they are (Theorems/C15.lean section B;
+  two more were repaired in /repo and the model follows the repaired code: `Ys.gco` - a child whose explicit asyncio_fn is a
+  generator-based coroutine was rejected by resolve_awaitables until 6607af4 -, `observeR true` - a `pure=True` METHOD had no
+  `.asyncio` attribute until fec982c):
   BaseException-only errors of awaited children (`except Exception` in convert_asynq_to_async), container subclasses
   (`isinstance` in resolve_awaitables vs `type(..) is` in unwrap / extract_futures), async_proxy functions returning a
   non-future (`await fut` in unwrap_coroutine).  (Futures that are not ConstFutures - an ErrorFuture, a lazy `Future(provider)`,
@@ -127,8 +128,9 @@ inductive Ys where
   | gco (y : Ys)               -- the child task y (`.task c p`, c declared with an explicit `asyncio_fn=g`) where g is written as
                                --   a GENERATOR-BASED coroutine (`@types.coroutine def g(..): r = yield from ...; return r`):
                                --   under asynq the AsyncTask of the function as ever; while the flag is on `.asynq()` gives
-                               --   `g(args)`, a generator object - `isinstance(x, collections.abc.Awaitable)` is False for it
-                               --   (`inspect.isawaitable(x)` is True, `await x` accepts it)
+                               --   `g(args)`, a generator object - not an instance of collections.abc.Awaitable, but
+                               --   `inspect.isawaitable(x)` is True and `await x` accepts it: since /repo 6607af4
+                               --   resolve_awaitables awaits it like every other form of an asyncio_fn (an ordinary child)
 inductive YsL where
   | nil
   | cons (y : Ys) (l : YsL)
@@ -220,7 +222,7 @@ def Ys.labelsA : Ys → List Nat
   | .sub y => Ys.labelsA y
   | .pval _ => []
   | .ofut _ _ => []
-  | .gco _ => []               -- the generator object is never started: nothing of the child is awaited
+  | .gco y => Ys.labelsA y     -- (since /repo 6607af4) awaited like any other child
 def YsL.labelsA : YsL → List Nat
   | .nil => []
   | .cons y l => Ys.labelsA y ++ YsL.labelsA l
@@ -448,13 +450,12 @@ def resolveA : Ys → St → Out × St
     else resolveA y s                   -- flag off: `self.fn(...)` = the object itself
   | .ofut isErr n, s =>                 -- `isinstance(x, (ConstFuture, ErrorFuture, Future)): return x.value()`
     if isErr then (.err (.u n), s) else (.ok (.a n), s)
-  | .gco y, s =>
+  | .gco y, s => resolveA y s
     -- flag on: `_call_pure` returned `self.asyncio(...)` = `self.asyncio_fn(*args)` = the generator object of a generator-based
-    -- coroutine (nothing of it has run).  `isinstance(x, Awaitable)` is False (a generator has no `__await__`), it is no
-    -- future, no batch item, no list / tuple / dict, not None: the final `raise TypeError("Unknown structured awaitable
-    -- type: ", type(x))`; the generator is never started (no `afn`, no `start` of the child)
-    if s.mode then (.err .typeerr, s)
-    else resolveA y s                   -- flag off: x is the AsyncTask (the `.task` clause: TypeError as well)
+    -- coroutine (nothing of it has run).  `if inspect.isawaitable(x): return await x` (since /repo 6607af4; before, the test
+    -- was `isinstance(x, Awaitable)`, False for such an object, and the final `raise TypeError` was reached): the generator
+    -- runs g, which logs `afn` and awaits the plain function's `.asyncio()` - the `.task` clause with `c.afn`.
+    -- flag off: x is the AsyncTask (the `.task` clause: TypeError)
 /-- `_gather(awaitables)`: every awaitable becomes a task (`ensure_future`: runs in a COPY of the context, so what it
     does to the flag is invisible here), `asyncio.wait(ALL_COMPLETED)`, then `[task.result() for task in tasks]` -/
 def gatherA : YsL → St → OutL × St
@@ -580,14 +581,15 @@ def observe (c : Call) (p : Prog) : List Obs := allConvs.map (fun cv => observe1
 
 /-- The ROOT of a case reached as `obj.m.asyncio(args)` / `Cls.m.asyncio(obj, args)` where `m` is declared
     `@asynq(pure=True)` inside a class (`pm = true`): attribute access on a method goes through `DecoratorBase.__get__`, which
-    returns `binder_cls(self, instance)` = a `PureAsyncDecoratorBinder` (decorators.py); that class defines `is_pure_async_fn`
-    only - `asyncio` is defined by `AsyncDecoratorBinder`, the binder of `@asynq()` - so the expression raises AttributeError
-    before anything runs: no event, the outcome is that error (`Err.other`), the flag is never touched.  `m(args)` and
-    `m(args).value()` (conventions call / value) and a pure method as a CHILD (`self.m(args)` while the flag is on is
-    `PureAsyncDecorator._call_pure`: `return self.asyncio(...)` on the decorator itself) are those of `Kind.pure`. -/
-def observeR (pm : Bool) (c : Call) (p : Prog) : List Obs :=
-  if pm then (observe c p).map (fun ob => if ob.conv.isAio then { ob with out := .err .other, log := [] } else ob)
-  else observe c p
+    returns `binder_cls(self, instance)` = a `PureAsyncDecoratorBinder` (decorators.py).  Since /repo fec982c that class
+    defines `asyncio` like `AsyncDecoratorBinder` does (`self.decorator.asyncio(self.instance, *args)`, without the instance
+    through the class): the root is what `Kind.pure` is, whatever `pm`.  (Before, the expression raised AttributeError: no
+    event, outcome `Err.other` - `oldPureMethodObs` below, which the observer rejects.) -/
+def observeR (_pm : Bool) (c : Call) (p : Prog) : List Obs := observe c p
+
+/-- what a case with a pure-method root looked like before /repo fec982c (kept to show that the observer rejects it) -/
+def oldPureMethodObs (c : Call) (p : Prog) : List Obs :=
+  (observe c p).map (fun ob => if ob.conv.isAio then { ob with out := .err .other, log := [] } else ob)
 
 /-! ## The property C15 as a Boolean observer over the observations of one program -/
 
@@ -823,9 +825,9 @@ def Prog.safe (p : Prog) : Bool := p.excOnly || p.noRaiseB
 
 mutual
 /-- every yielded container is a plain tuple / list / dict (no instance of a subclass: `.sub`), every async_proxy function
-    returns one future (no `.pval`) and no explicit asyncio_fn of a yielded child is a generator-based coroutine (no `.gco`):
-    the second side condition of the `_partial` theorems (`.ofut` - ErrorFuture, lazy Future - is inside since the repair of
-    resolve_awaitables) -/
+    returns one future (no `.pval`): the second side condition of the `_partial` theorems (`.ofut` - ErrorFuture, lazy Future -
+    and `.gco` - a child whose asyncio_fn is a generator-based coroutine - are inside since the repairs of resolve_awaitables,
+    /repo f8c8dff and 6607af4) -/
 def Prog.plainY : Prog → Bool
   | .yld _ y k h => Ys.plainY y && Prog.plainY k && Prog.plainY h
   | .sync _ child k h => Prog.plainY child && Prog.plainY k && Prog.plainY h
@@ -837,7 +839,7 @@ def Ys.plainY : Ys → Bool
   | .dict _ l => YsL.plainY l
   | .sub _ => false
   | .pval _ => false
-  | .gco _ => false
+  | .gco y => Ys.plainY y
   | _ => true
 def YsL.plainY : YsL → Bool
   | .nil => true
